@@ -497,5 +497,5 @@ def run(acc, tier):
         engine.pmap(acc, shard_generated, extra=(60, 80, 7))
     else:
         engine.pmap(acc, shard_exhaustive, extra=(4, 2))
-        engine.pmap(acc, shard_generated, extra=(600, 800, 8))
-        engine.fuzz(acc, "hyp:history", CHECKS, 3000, max_len=4096)
+        engine.pmap(acc, shard_generated, extra=(3000, 4000, 8))
+        engine.fuzz(acc, "hyp:history", CHECKS, 15000, max_len=4096)
